@@ -63,10 +63,21 @@ type Scenario struct {
 	// then yields the processor Spin times before it returns, so that the close path advances as
 	// far as it can while the callback is still in progress).
 	CBClose *CBClose `json:"cb_close,omitempty"`
+	// ReqClose: a Close issued from inside a request callback (the application closes the stream,
+	// the session or the server while it handles a request).
+	ReqClose *ReqClose `json:"req_close,omitempty"`
 	// SimLocks: the library's mutexes are the simulation-aware ones in this run, and every statement
 	// of the UDP listeners (server and client) is a yield point at which the scheduler may hold the
 	// goroutine - also while it holds the listeners' lock or runs a packet callback.
 	SimLocks bool `json:"sim_locks,omitempty"`
+}
+
+// ReqClose: see Scenario.ReqClose.
+type ReqClose struct {
+	Kind  string `json:"kind"`  // stream | session | server
+	CB    string `json:"cb"`    // describe | announce | setup | play | record | pause
+	Nth   int    `json:"nth"`   // the n-th callback of that kind (1-based)
+	Async bool   `json:"async"` // from a goroutine started in the callback (always for server) instead of synchronously
 }
 
 // CBClose: see Scenario.CBClose.
@@ -156,6 +167,23 @@ func gen(seed uint64, tier string) Scenario {
 				break
 			}
 		}
+	}
+	// ServerStream.Close landing inside the handshake of the multicast reader (between its
+	// DESCRIBE, its SETUPs and its PLAY): one round trip is about LatMin+LatMax
+	for _, p := range sc.Peers {
+		if x := core.HS(seed, "c13.mcastclose", "", 0); p.Transport == "mcast" && x%100 < 50 {
+			rtt := sc.Net.LatMinUS + sc.Net.LatMaxUS
+			sc.StreamCloseUS = p.StartUS + int(3+(x>>8)%10)*rtt + int((x>>16)%uint64(rtt+1))
+		}
+	}
+	if x := core.HS(seed, "c13.reqclose", "", 0); x%100 < 25 {
+		rc := &ReqClose{Kind: []string{"stream", "stream", "session", "server"}[(x>>8)%4],
+			CB:  []string{"setup", "setup", "play", "describe", "record", "pause", "announce"}[(x>>16)%7],
+			Nth: 1 + int((x>>24)%4), Async: (x>>32)%3 == 0}
+		if rc.Kind == "server" {
+			rc.Async = true // Server.Close waits for the goroutine that runs the callback
+		}
+		sc.ReqClose = rc
 	}
 	if x := core.HS(seed, "c13.simlocks", "", 0); x%100 < 30 {
 		sc.SimLocks = true
@@ -262,7 +290,7 @@ func run(t *testing.T, sc Scenario) *core.Result {
 	}
 	var summary map[string]any
 	res := sys.Run(t, opts, func(w *sys.World) {
-		w.ProbeInit("server_close_mid_run", "stream_close_mid_run", "client_close_concurrent", "client_close_mid_handshake", "close_inside_packet_callback", "multicast_reader",
+		w.ProbeInit("server_close_mid_run", "stream_close_mid_run", "client_close_concurrent", "client_close_mid_handshake", "close_inside_packet_callback", "close_inside_request_callback", "multicast_reader",
 			"client_close_while_playing", "client_close_while_recording", "close_with_stalled_peer", "peer_vanished",
 			"server_close_with_sessions", "census_attributed_goroutines", "publisher", "secure", "session_closed_by_timeout_or_peer")
 		owners := core.NewOwners(classify)
@@ -398,6 +426,39 @@ func run(t *testing.T, sc Scenario) *core.Result {
 			cmu.Unlock()
 			if len(gs) > 0 {
 				w.Fail("c13/goroutine-leak server", "after Server.Close returned %d goroutines created by the server remain: %s", len(gs), core.Describe(gs))
+			}
+		}
+
+		// ---- Close from inside a request callback ----------------------------------------
+		if rc := sc.ReqClose; rc != nil {
+			var nCB atomic.Int32
+			var rcFired atomic.Bool
+			h.Hook = func(cb sys.CB) {
+				if cb.Kind != rc.CB || int(nCB.Add(1)) != rc.Nth || !rcFired.CompareAndSwap(false, true) {
+					return
+				}
+				w.Probe("close_inside_request_callback")
+				w.Log.Add("srv", "reqclose", "%s in %s #%d async=%v", rc.Kind, rc.CB, rc.Nth, rc.Async)
+				do := func() {
+					switch rc.Kind {
+					case "stream":
+						smu.Lock()
+						streamClosed = true
+						smu.Unlock()
+						stream.Close()
+					case "session":
+						if cb.Session != nil {
+							cb.Session.Close()
+						}
+					case "server":
+						closeServer("in-request-callback")
+					}
+				}
+				if rc.Async {
+					w.Go("reqcloser", do)
+				} else {
+					do()
+				}
 			}
 		}
 
@@ -783,7 +844,7 @@ func run(t *testing.T, sc Scenario) *core.Result {
 			nf++
 		}
 	}
-	res.Nontrivial = res.Probes["client_close_concurrent"]+res.Probes["server_close_mid_run"]+res.Probes["stream_close_mid_run"]+res.Probes["peer_vanished"]+res.Probes["close_inside_packet_callback"] > 0 &&
+	res.Nontrivial = res.Probes["client_close_concurrent"]+res.Probes["server_close_mid_run"]+res.Probes["stream_close_mid_run"]+res.Probes["peer_vanished"]+res.Probes["close_inside_packet_callback"]+res.Probes["close_inside_request_callback"] > 0 &&
 		(nf > 0 || len(res.YieldHits) > 0)
 	res.Sample = summary
 	return res
@@ -817,6 +878,11 @@ func shrink(sc Scenario) []Scenario {
 	if sc.SimLocks {
 		c := clone()
 		c.SimLocks = false
+		out = append(out, c)
+	}
+	if sc.ReqClose != nil {
+		c := clone()
+		c.ReqClose = nil
 		out = append(out, c)
 	}
 	if len(sc.Yields) > 0 {
